@@ -194,7 +194,7 @@ Proof.
       { rewrite <- (ln_exp x) at 2. rewrite <- ln_mult by lra. f_equal.
         rewrite exp_Ropp. field. lra. }
       destruct (Rle_dec x lit33_3) as [B3|B3].
-      * exists (exp (- x) + x). split.
+      * exists (x + exp (- x)). split.
         { rewrite neg_named by auto. simpl. rewrite un_named by auto. simpl. rewrite arith_named by auto. reflexivity. }
         pose proof (ln1p_le (exp (- x)) ltac:(lra)). pose proof (ln1p_ge (exp (- x)) ltac:(lra)).
         rewrite S. rewrite Rabs_right by lra. lra.
